@@ -212,6 +212,9 @@ def run(ck, facts, tier):
         else:
             ck.violation(R, "fulfill:ambiguous-solution-keeps-obligation", fu.where(), "an obligation whose solution is ambiguous must stay pending")
 
+    from props.c10 import scc_links
+    scc_links(ck, facts, "C01.PROVISIONAL")
+
     # ------------------------------------------------------------------ NEG-GROUND
     R = "C01.NEG-GROUND"
     ck.rule(R, "K3/K4: InferenceTable::invert is called only by abstract_negative_literal and invert_then_canonicalize; negative literals "
